@@ -52,7 +52,7 @@ func init() {
 		Level:  "fault_enumeration",
 		Rule: "E3 fault enumeration: (truncation) every frame of a 40-frame alphabet (4 message kinds × body lengths 0..200) × EVERY cut point k < len(frame) × reader chunkings {whole, 1 byte at a time, and every chunking with ≤1 (thorough ≤2) extra deviations: short read at any byte, data together with io.EOF, one empty read}, the same cuts through 11 standard-library reader types (bytes.Reader, bytes.Buffer, strings.Reader, bufio.Reader of 16/32/64/4096 bytes, io.LimitedReader, io.SectionReader, iotest.OneByteReader, iotest.DataErrReader - code may special-case a reader's dynamic type), and four frames with bodies of 1..3 MiB × cut points within ±1 of m·2^p (p = 9..22, m = 1..3, measured from the frame and from the body start) × {whole, 4 KiB, 64 KiB chunks}: never success, n = k, cause io.EOF for k=0, io.ErrUnexpectedEOF otherwise, either one for k=32; " +
 			"(corrupt header, in a memory-limited worker process) every single-bit flip and every single-byte replacement (01, 80, ff) of the header-size word and of the body-size word of a valid header; header-size field × body-size field alphabets (0, len±1, 2^31, 2^32, 2^40, 2^47, 2^48, 2^62, 2^63-1, 2^63, 2^63+1, 2^64-1 …) × version bytes {ASCII, 0xff, NUL} × {0, 5, all} body bytes present: header size ≠ 32 ⇒ ErrInvalidHeaderSize after exactly 32 bytes; otherwise success iff the declared body is completely present; never a panic, never a dead process; ReadHeader on every prefix 0..40 of arbitrary bytes returns normally; " +
-			"(truncation, polling readers) every cut point of frames with bodies of 0 / 33 / 200 / 2048 bytes read through a reader whose every 2nd call returns (0, nil), in pieces of 1 and 16 bytes; (writer faults) every frame × EVERY byte budget k ≤ len(frame) × {partial write with error, refusal with count 0, full count TOGETHER with the error on the call that ends exactly at the budget (one-shot; later bytes are recorded)}: (corrupt headers also through three readers that are io.Seekers - iohelper.AtToReader and an over-long io.SectionReader, which report more remaining bytes than they can deliver, and bytes.Reader) Marshal returns that error and the count of accepted bytes, which are exactly frame[:count] - also for 18 longer frames (bodies of 4000..70000 bytes and 1 MiB+1) with budgets at both ends and around 512, 4096, 8192, 65536, 2^20 measured from the start, from the body start and from the end; a payload-length sweep (EVERY length 0..600 × 2 kinds × every cut point and every writer budget); (read errors) a non-EOF error injected at every offset, alone or together with the last bytes, under whole and 1-byte chunkings and after every single chunking deviation (short read at any byte, one empty read): no success unless the frame was delivered completely, n = bytes delivered; the same on frames of 1..3 MiB (the incremental read path) at cut points around every power of two, and on streams whose header declares 2^20+1 .. 2^64-1 body bytes while 0, 5 or 70000 follow. A case is one (frame, fault point, mode); non-trivial when the fault point is inside the frame (0 < k < len).",
+			"(truncation, polling readers) every cut point of frames with bodies of 0 / 33 / 200 / 2048 bytes read through a reader whose every 2nd call returns (0, nil), in pieces of 1 and 16 bytes; (transient read errors) ONE error with Temporary() / Timeout() true after `at` bytes of every strict prefix (every at <= cut) of small frames, the reader carrying on afterwards: never success, a clean io.EOF only when nothing of a frame was consumed; (writer faults) every frame × EVERY byte budget k ≤ len(frame) × {partial write with error, refusal with count 0, full count TOGETHER with the error on the call that ends exactly at the budget (one-shot; later bytes are recorded)}: (corrupt headers also through three readers that are io.Seekers - iohelper.AtToReader and an over-long io.SectionReader, which report more remaining bytes than they can deliver, and bytes.Reader) Marshal returns that error and the count of accepted bytes, which are exactly frame[:count] - also for 18 longer frames (bodies of 4000..70000 bytes and 1 MiB+1) with budgets at both ends and around 512, 4096, 8192, 65536, 2^20 measured from the start, from the body start and from the end; a payload-length sweep (EVERY length 0..600 × 2 kinds × every cut point and every writer budget); (read errors) a non-EOF error injected at every offset, alone or together with the last bytes, under whole and 1-byte chunkings and after every single chunking deviation (short read at any byte, one empty read): no success unless the frame was delivered completely, n = bytes delivered; the same on frames of 1..3 MiB (the incremental read path) at cut points around every power of two, and on streams whose header declares 2^20+1 .. 2^64-1 body bytes while 0, 5 or 70000 follow. A case is one (frame, fault point, mode); non-trivial when the fault point is inside the frame (0 < k < len).",
 		Assumptions: []string{
 			"for a body-size field ≥ 2^63 (no valid frame can have such a body) only 'returns normally and does not succeed' is required; for smaller declared sizes that exceed the stream the truncation clause applies (n = bytes available)",
 			"the worker process runs under `ulimit -v`; a worker that dies is reported for the case it announced before executing it",
@@ -326,6 +326,74 @@ func c07ReadErrDeclared(f c06Frame, declared uint64, k int, together bool, unifo
 		ok = "SUCCESS"
 	}
 	return fmt.Sprintf("n=%d %s", n, ok), fmt.Sprintf("n=%d error", k)
+}
+
+// c07TempErr is a transient reader error: Temporary() and Timeout() report true (an expired deadline).
+type c07TempErr struct{}
+
+func (c07TempErr) Error() string   { return "transient: deadline expired" }
+func (c07TempErr) Temporary() bool { return true }
+func (c07TempErr) Timeout() bool   { return true }
+
+// c07TransientReader delivers data[:cut]; ONCE, when `at` bytes have been delivered, it answers (0, transient
+// error); every later call goes on as if nothing had happened (more data, then io.EOF).
+type c07TransientReader struct {
+	data    []byte
+	pos, at int
+	fired   bool
+	uniform int
+}
+
+func (r *c07TransientReader) Read(p []byte) (int, error) {
+	if len(p) == 0 {
+		return 0, nil
+	}
+	if !r.fired && r.pos >= r.at {
+		r.fired = true
+		return 0, c07TempErr{}
+	}
+	if r.pos >= len(r.data) {
+		return 0, io.EOF
+	}
+	n := len(r.data) - r.pos
+	if !r.fired && r.at-r.pos < n {
+		n = r.at - r.pos
+	}
+	if len(p) < n {
+		n = len(p)
+	}
+	if r.uniform > 0 && r.uniform < n {
+		n = r.uniform
+	}
+	copy(p, r.data[r.pos:r.pos+n])
+	r.pos += n
+	return n, nil
+}
+
+// c07Transient: a strict prefix wire[:cut] read through a reader with ONE transient error after `at` bytes.
+// An implementation may give up at the error (count = at, that error) or carry on to the end of the prefix
+// (count = cut, io.ErrUnexpectedEOF; io.EOF for cut 0 and tolerated at 32); it must not report success, and
+// it must not report a clean io.EOF after having consumed part of a frame.
+func c07Transient(f c06Frame, cut, at, uniform int) (got, want string) {
+	defer func() {
+		if e := recover(); e != nil {
+			got += fmt.Sprint(" panic: ", e)
+		}
+	}()
+	wire := c06Wire(f)
+	r := &c07TransientReader{data: wire[:cut], at: at, uniform: uniform}
+	n, _, err := pbcmpl.Unmarshal(r, c06Empty(f.Kind))
+	name := errName(err)
+	want = "no success; a clean EOF only with n = 0 (or 32); n = bytes consumed"
+	switch {
+	case err == nil:
+		return fmt.Sprintf("n=%d SUCCESS on a strict prefix", n), want
+	case name == "EOF" && n != 0 && n != 32:
+		return fmt.Sprintf("n=%d err=EOF: a clean end of stream after %d bytes of a frame", n, n), want
+	case int(n) != r.pos:
+		return fmt.Sprintf("n=%d err=%s but %d bytes were consumed", n, name, r.pos), want
+	}
+	return want, want
 }
 
 // ---- corrupt headers (worker process)
@@ -795,6 +863,37 @@ func c07Run(c *mc.Ctx) {
 			c.Add("polling_reader_truncation_cases", 1)
 		})
 	}
+	// TRANSIENT reader errors (Temporary() / Timeout() true, one-shot, the reader carries on afterwards): at
+	// every offset at <= cut of every strict prefix of frames with bodies of 0, 5 and 40 bytes
+	{
+		type tj struct {
+			f            c06Frame
+			cut, at, uni int
+		}
+		var tjs []tj
+		for _, l := range []int{0, 5, 40} {
+			for _, kf := range []c06Frame{{Kind: "pb"}, {Kind: "legacyv", Version: gen.Bytes("3.1")}} {
+				f := kf
+				f.Payload = l
+				for cut := 0; cut < len(c06Wire(f)); cut++ {
+					for at := 0; at <= cut; at++ {
+						tjs = append(tjs, tj{f, cut, at, 0})
+					}
+					tjs = append(tjs, tj{f, cut, cut, 1})
+				}
+			}
+		}
+		c.Expect(int64(len(tjs)))
+		c.Par(len(tjs), func(i int) {
+			j := tjs[i]
+			fc := j.f
+			if g, w := c07Transient(j.f, j.cut, j.at, j.uni); g != w {
+				c.Fail(15<<48|int64(i), "transient", "transient-read-error", c07Case{Frame: &fc, Cut: j.cut, Budget: j.at, Uniform: j.uni}, g, w)
+			}
+			c.Count(1, 1)
+			c.Add("transient_read_error_cases", 1)
+		})
+	}
 	// READ ERRORS on the large frames (the incremental read path above 1 MiB): a non-EOF error at the same
 	// cut points, alone and together with the last bytes, whole and in 4 KiB pieces; and on streams whose
 	// header DECLARES 2^20+1, 2^40, 2^63 or 2^64-1 body bytes while 0, 5 or 70000 follow (the untrusted-size
@@ -1014,6 +1113,8 @@ func c07Judge(kind string, cs c07Case) (got, want string) {
 			env = mc.NewEnv(cs.Choices)
 		}
 		return c07TruncOpt(*cs.Frame, cs.Cut, env, cs.Uniform, cs.Empty)
+	case "transient":
+		return c07Transient(*cs.Frame, cs.Cut, cs.Budget, cs.Uniform)
 	case "truncation/std":
 		return c07TruncStd(*cs.Frame, cs.Cut, cs.Mode)
 	case "writer":
